@@ -45,7 +45,9 @@ def bases():
                      # letters whose lower-case form depends on their position (final sigma), accented letters
                      "/\u039f\u0394\u039f\u03a3/\u00c9t\u00e9?q=\u0391\u03a3", "/\u03bf\u03b4\u03bf\u03c3",
                      # an escaped NON-ASCII upper-case key: revealed by unquoting only, the items are sorted again after lower-casing
-                     "/p?%C3%89=1&%C3%A8=0&b=2", "/p?%C3%A8=0&%C3%89=1"):
+                     "/p?%C3%89=1&%C3%A8=0&b=2", "/p?%C3%A8=0&%C3%89=1",
+                     # ... with a key that is a proper prefix of another one (items are sorted as (key, value), not as 'key=value' text)
+                     "/s?p=1&p2=2&q=%C3%89t%C3%A9", "/s?a&a=1&a-b=1&name=%C3%9Cber"):
             out.append((host, tail))
     # redirect carriers: the port of the carrier is ignored like any other (host-based and parameter-based hints)
     out.extend(CARRIERS)
